@@ -48,8 +48,9 @@ def states(draw, max_providers=7):
         sharing = bool(invs) and draw(st.integers(0, 9)) < 3
         if sharing:
             traits.add(SHARING)
-            if not aggs or draw(st.integers(0, 9)) < 8:
+            if draw(st.integers(0, 9)) < 8:
                 aggs.add(draw(st.sampled_from(AGGS)))
+            # (else: a provider may carry the trait and be in no aggregate)
         provs.append({'uuid': PROV[i], 'parent': parent, 'invs': invs,
                       'traits': sorted(traits), 'aggs': sorted(aggs)})
     # make sharing useful: give some other provider a common aggregate
